@@ -66,7 +66,17 @@ func runC06(c *fw.Ctx) {
 	}
 	probe.Net.Run()
 	c.Res.Steps += probe.Net.Steps
-	final := scen.FinalRound(cnode.H)
+	// "a broadcast round that is followed by a further round": judged from what the fault-free run really
+	// emitted (the highest round number any party sent), not from the handler's declared window - the
+	// offline cmp presign admits round 8 for its abort round but ends, unprotected, after round 7
+	final := 0
+	for _, id := range probe.Order {
+		for _, m := range probe.Nodes[id].Sent {
+			if int(m.RoundNumber) > final {
+				final = int(m.RoundNumber)
+			}
+		}
+	}
 	// candidate rounds: broadcast rounds followed by a further round
 	var cands []int
 	for i, p := range points {
